@@ -76,6 +76,8 @@ func (st *state) dispatch(toks []string) (string, string) {
 		return codecOp(toks), ""
 	case "open", "inst", "close", "reopen", "gc", "flush", "sleep", "dump", "api":
 		return st.apiOp(toks)
+	case "frag":
+		return fragOp(toks), ""
 	case "conn":
 		return st.connect(toks[1]), ""
 	case "resp":
